@@ -101,7 +101,7 @@ def _vstack(arrs):
 
 @rule(
     "GEN-TABLES",
-    ["C03", "C02", "C08"],
+    ["C03", "C02", "C08", "C05"],
     "build_optimized_tables interpreted on sample modified terminals with a table oracle that records which points were tabulated: "
     "permutation slices are the tables at the reference-facet symmetries in the order N = 2*rotations + reflections exactly where "
     "facets lack a global orientation; point / entity / permutation axes are collapsed exactly when constant; the \"-\" dof shift "
@@ -116,6 +116,10 @@ def gen_tables(repo, res):
                "is_piecewise_table", "is_uniform_table", "equal_tables", "generate_psi_table_name"):
         res.functions.add(m.func(nm).key)
     loc = m.line(f.node)
+    _fail = res.fail
+
+    def fail_tables(key, msg, loc_=""):  # table content / flags: not a matter of the packing contract (C05)
+        _fail(key, msg, loc_, props=("C02", "C03", "C08"))
 
     def cell(name, tdim):
         return Node("Cell", cellname=name, topological_dimension=tdim)
@@ -155,17 +159,17 @@ def gen_tables(repo, res):
         try:
             out = it.call_f(f, [rule_, c, integral_type, entity_type, list(mts), {}, False, mixed])
         except Raised as e:
-            res.fail(key, f"build_optimized_tables raises ({e.what}) on `{label}`", loc)
+            fail_tables(key, f"build_optimized_tables raises ({e.what}) on `{label}`", loc)
             return
         if rule_.f["points"] != [list(p) for p in pts]:
-            res.fail(key, f"`{label}`: the rule's points were permuted in place ({rule_.f['points']}): every later table and the weights use the wrong points", loc)
+            fail_tables(key, f"`{label}`: the rule's points were permuted in place ({rule_.f['points']}): every later table and the weights use the wrong points", loc)
         if not isinstance(out, dict):
             raise AnalysisError("build_optimized_tables did not return a dict")
         names = {}
         for t_ in mts:
             ref = out.get(t_)
             if ref is None:
-                res.fail(key, f"`{label}`: no table reference for modified terminal {t_.f['name']}", loc)
+                fail_tables(key, f"`{label}`: no table reference for modified terminal {t_.f['name']}", loc)
                 continue
             g = ref.f if isinstance(ref, Node) else None
             if g is None:
@@ -180,29 +184,29 @@ def gen_tables(repo, res):
             got = vals.data if isinstance(vals, NDArr) else vals
             what = f"`{label}`, terminal {t_.f['name']} ({el.f['kind']} table, restriction {t_.f['restriction']!r})"
             if g["ttype"] != tt:
-                res.fail(key, f"{what}: table type is {g['ttype']!r}, the definition gives {tt!r}", loc)
+                fail_tables(key, f"{what}: table type is {g['ttype']!r}, the definition gives {tt!r}", loc)
             elif got != R:
                 shp = vals.shape if isinstance(vals, NDArr) else "?"
                 exp_shape = (len(R), len(R[0]), len(R[0][0]), len(R[0][0][0]))
                 if tuple(shp) != exp_shape:
-                    res.fail(key, f"{what}: stored table has shape {tuple(shp)}, expected {exp_shape} = (permutations, entities, points, dofs) after collapsing the "
+                    fail_tables(key, f"{what}: stored table has shape {tuple(shp)}, expected {exp_shape} = (permutations, entities, points, dofs) after collapsing the "
                              f"constant axes of a {tt} table over {len(perms)} reference-facet symmetries", loc)
                 else:
                     bad = next(((p, e, q, d) for p in range(exp_shape[0]) for e in range(exp_shape[1]) for q in range(exp_shape[2]) for d in range(exp_shape[3])
                                 if got[p][e][q][d] != R[p][e][q][d]), None)
-                    res.fail(key, f"{what}: entry [perm {bad[0]}][entity {bad[1]}][point {bad[2]}][dof {bad[3]}] is not the table value at that point of the "
+                    fail_tables(key, f"{what}: entry [perm {bad[0]}][entity {bad[1]}][point {bad[2]}][dof {bad[3]}] is not the table value at that point of the "
                              f"{bad[0]}-th reference-facet symmetry (order N = 2*rotations + reflections, rotations applied first): the kernel's "
                              "quadrature_permutation index would select another point order", loc)
             if bool(g["is_permuted"]) != perm:
-                res.fail(key, f"{what}: is_permuted = {g['is_permuted']}, but the permutation slices {'differ' if perm else 'are identical'}", loc)
+                fail_tables(key, f"{what}: is_permuted = {g['is_permuted']}, but the permutation slices {'differ' if perm else 'are identical'}", loc)
             shift = el.f["dim"] if (t_.f["restriction"] == "-" and t_.f["terminal"].cls == "FormArgument") else 0
             if g["offset"] != shift + el.f["t_offset"] or g["block_size"] != el.f["t_stride"]:
-                res.fail(key, f"{what}: (offset, block_size) = ({g['offset']}, {g['block_size']}), expected ({shift + el.f['t_offset']}, {el.f['t_stride']}): the dofs of "
+                _fail(key, f"{what}: (offset, block_size) = ({g['offset']}, {g['block_size']}), expected ({shift + el.f['t_offset']}, {el.f['t_stride']}): the dofs of "
                          "the \"-\" cell follow the element dimension for restricted form arguments, and only for them (geometry has its own layout)", loc)
             names.setdefault(g["name"], []).append((t_.f["name"], R))
         for nm_, users in names.items():
             if any(u[1] != users[0][1] for u in users):
-                res.fail(key, f"`{label}`: terminals {[u[0] for u in users]} share the table name {nm_} but their tables differ: one of them reads the other's values", loc)
+                fail_tables(key, f"`{label}`: terminals {[u[0] for u in users]} share the table name {nm_} but their tables differ: one of them reads the other's values", loc)
         by_val = {}
         for nm_, users in names.items():
             by_val.setdefault(repr(users[0][1]), []).append(nm_)
